@@ -105,6 +105,14 @@ def explore_steps(pr, repo, check, tags=TAGS, names=NAMES, shapes=SHAPES, chains
                                 return st
 
                             def init(ex, ctx_, env):
+                                # shape guard: the loop state must consist of the variables this harness havocs; a renamed or
+                                # additional state variable makes the harness inapplicable (undecided), never an alarm
+                                import ast as _a
+                                assigned = {t.id for n in _a.walk(spec.node) if isinstance(n, (_a.Assign, _a.AugAssign))
+                                            for t in (n.targets if isinstance(n, _a.Assign) else [n.target]) if isinstance(t, _a.Name)}
+                                state = {v for v in assigned if v in env.local}
+                                if state != {'nterm_residue', 'old_residue', 'terminal', 'model'}:
+                                    raise KeyError('loop state variables of get_atom_lines_from_pdb are %s' % sorted(state))
                                 ctx_.oblige('reader loop: invariant "terminal is None" holds at loop entry',
                                             env.local.get('terminal', 0) is None, kind='aux')
                                 try:
